@@ -175,7 +175,7 @@ class H5Writer:
             base = list(h5file)[0]
             base_handle = h5file[base]
 
-            if entity.name == base:
+            if entity.name == base and not isinstance(entity, (Entity, EntityType)):
                 return base_handle
 
             uid = entity.uid
